@@ -91,6 +91,11 @@ func rawFitnessOf(p FitnessProg, epoch, i, n int, g *genetics.Genome) float64 {
 			return 0
 		}
 		return p.Scale * unitHash(p.Salt, e, int64(i))
+	case "signed": // values of both signs (the library replaces a negative adjusted fitness by a small positive constant); one organism is positive for certain
+		if i == int(unitHash(p.Salt, e, 993)*float64(n))%n {
+			return p.Scale * (0.5 + unitHash(p.Salt, e, int64(i)))
+		}
+		return p.Scale * (2*unitHash(p.Salt, e, int64(i), 3) - 1)
 	case "genome": // depends on the genome only
 		s := float64(len(g.Genes)) + 0.1*float64(len(g.Nodes))
 		for _, gn := range g.Genes {
